@@ -26,3 +26,5 @@ open LoomVerif.C19
 #print axioms permutation_limit_run
 #print axioms no_limit_without_max
 #print axioms Ex.run
+#print axioms Ex.iter0
+#print axioms Ex.iter1
